@@ -84,6 +84,31 @@ def gen_poly(rng):
     return case
 
 
+def gen_poly_iavar(rng):
+    """a variable whose INITIAL VALUE is computed from a scanned parameter (x(0) = c * p), read by a rate; the state the
+    elasticities are taken at is the model's own initial state (`variables=None`) in most cases: it has to be the
+    state BEFORE any perturbation, for every scanned parameter"""
+    content = H9.gen_content(rng, rng.random() < 0.3)
+    plain_p = [k for k, v in content["pars"] if "v" in v]
+    p = rng.choice(plain_p)
+    vnames = [k for k, _ in content["vars"]]
+    xi = f"x{len(vnames)}i"
+    args = [p] + ([rng.choice(plain_p)] if rng.random() < 0.4 else [])
+    content["vars"].append([xi, {"ia": {"args": args, "e": _prod([["c", rng.choice(["1", "2", "1/2", "3/2"])]] + [["a", i] for i in range(len(args))])}}])
+    rargs = [xi] + [rng.choice(vnames + plain_p) for _ in range(rng.randint(0, 1))]
+    content["rxns"].append(["riv", {"args": rargs, "e": _prod([["c", rng.choice(["1/2", "1/4", "1"])]] + [["a", i] for i in range(len(rargs))]
+                                                              + ([["a", 0]] if rng.random() < 0.5 else [])),
+                                    "st": [[rng.choice(vnames), {"c": rng.choice(["1", "-1"])}]]}])
+    what = "par" if rng.random() < 0.8 else "var"
+    others = [k for k in plain_p if k != p]
+    to_scan = [p] + rng.sample(others, rng.randint(0, len(others)))
+    rng.shuffle(to_scan)
+    return {"stratum": "poly", "content": content, "what": what,
+            "to_scan": (to_scan if what == "par" else None),
+            "vars": None if rng.random() < 0.8 else [[k, rng.choice(["1", "2", "1/2", "3"])] for k, _ in content["vars"]],
+            "normalized": rng.random() < 0.5, "d": rng.choice(DISP), "t": rng.choice(["0", "0", "1"]), "iavar": True}
+
+
 def gen_chain(rng):
     n = rng.randint(1, 3)
     ks = [rng.choice(["1", "2", "1/2", "3/2"]) for _ in range(n + 1)]
@@ -636,7 +661,7 @@ def shape(case):
         at = "-".join(str(x) for x in case.get("raise_at", []))
         return (f"raise-{case['raise']}{'-' + at if at else ''}-{case['what']}-"
                 f"{'norm' if case['normalized'] else 'raw'}-{'y' if case['vars'] else 'init'}")
-    return (f"{case['stratum']}-{case['what']}-v{len(c['vars'])}p{len(c['pars'])}r{len(c['rxns'])}"
+    return (f"{case['stratum']}{'-iavar' if case.get('iavar') else ''}-{case['what']}-v{len(c['vars'])}p{len(c['pars'])}r{len(c['rxns'])}"
             f"-{'norm' if case['normalized'] else 'raw'}-{'y' if case['vars'] else 'init'}-d{case['d']}")
 
 
@@ -810,7 +835,7 @@ def run(ctx):
     cases = list(corpus())
     n = ctx.n(300, 3000)
     gens = [gen_powerlaw, gen_powerlaw, gen_mc, gen_poly, gen_raise, gen_euler, gen_mc, gen_chain, gen_powerlaw, gen_euler,
-            gen_poly, gen_raise]
+            gen_poly_iavar, gen_raise]
     while len(cases) < n:
         cases.append(gens[len(cases) % len(gens)](rng))
     batch = 80
